@@ -34,7 +34,7 @@ import ast
 from pyvc import terms as T
 from pyvc.arrays import BV
 from pyvc.ctx import cur, Infeasible
-from pyvc.interp import Env, PyRaise, BoundMethod
+from pyvc.interp import Env, PyRaise, BoundMethod, ContinueEx, BreakEx
 from pyvc.summary import summarise
 from pyvc.values import Builtin, SSeq, Unsupported, ExcValue
 from pyvc.vc import Task
@@ -397,6 +397,10 @@ def agg_rule(agg):
                         interp.exec_block(node.body, e2)
                     except PyRaise as e:
                         err = e.exc
+                    except ContinueEx:
+                        pass  # `continue`: this iteration ends here
+                    except BreakEx:
+                        raise Unsupported("`break` inside a loop of is_valid")
                     if rc is not None and err is None:
                         good = len(rc.writes) == 1 and isinstance(rc.writes[0][0], Slot) and isinstance(item, Slot) and rc.writes[0][0].term is item.term
                         cc = cur()
